@@ -3,6 +3,7 @@ package worlds
 import (
 	"encoding/json"
 	"fmt"
+	"strings"
 
 	"verif/internal/mc"
 )
@@ -20,6 +21,21 @@ type Scenario struct {
 
 // Factory returns the world factory of a scenario.
 func Factory(s Scenario) mc.Factory {
+	inner := factoryOf(s)
+	prop := s.ID
+	if i := strings.IndexByte(prop, '/'); i >= 0 {
+		prop = prop[:i]
+	}
+	return func() mc.World {
+		w := inner()
+		if p, ok := w.(interface{ SetProperty(string) }); ok {
+			p.SetProperty(prop) // generic monitors of the base world report under the property being checked
+		}
+		return w
+	}
+}
+
+func factoryOf(s Scenario) mc.Factory {
 	switch s.World {
 	case "job":
 		var p JobScenario
